@@ -6,6 +6,7 @@ import (
 	"errors"
 	"fmt"
 	"io"
+	"math"
 	"net/http"
 	"strconv"
 	"strings"
@@ -86,7 +87,8 @@ func (b *c06Body) Read(p []byte) (int, error) {
 	}
 	if b.r.FailAt >= 0 && b.pos >= b.r.FailAt {
 		b.sawErr = true
-		return 0, errC06Body
+		// the kinds of error a body read ends with when the server dies midway
+		return 0, []error{errC06Body, io.ErrUnexpectedEOF, fmt.Errorf("read tcp: %w", io.ErrUnexpectedEOF), errors.New("http: unexpected EOF reading trailer"), io.ErrClosedPipe}[b.r.FailAt%5]
 	}
 	remaining := len(b.r.Body) - b.pos
 	if remaining == 0 {
@@ -504,7 +506,7 @@ func c06Gen(t *rapid.T) c06Case {
 		}
 		c.Exchanges = append(c.Exchanges, ex)
 	}
-	c.MaxBody = rapid.SampledFrom([]int64{-1, -1, 0, 1, int64(maxLen) - 1, int64(maxLen), int64(maxLen) + 1, 1 << 30, 100}).Draw(t, "maxbody")
+	c.MaxBody = rapid.SampledFrom([]int64{-1, -1, 0, 1, int64(maxLen) - 1, int64(maxLen), int64(maxLen) + 1, 1 << 30, 100, 65535, 65536, 65537, math.MaxInt64, math.MaxInt64 - 1, math.MaxInt32}).Draw(t, "maxbody")
 	if c.MaxBody < -1 {
 		c.MaxBody = 0
 	}
